@@ -387,6 +387,35 @@ def check_each_value(ctx):
         n += 1
         ctx.ob('C02.EACH-VALUE', ok, ctx.where(f.module, f.node), f.qual,
                'Rules.%s' % name, detail)
+    # the mapping that is parsed is the decoded file itself: nothing is
+    # dropped or rewritten between the decoder and the rule parser
+    from ..dte import Table
+    pf = prog.func(POLICY + '.parse_file_contents')
+    t = Table(prog, pf)
+    bad = None
+    for p in t.paths:
+        if p.outcome.kind != 'return' or p.outcome.expr is None:
+            continue
+        e = t.expand(p.outcome.expr)
+        parts = e.values if isinstance(e, ast.BoolOp) and isinstance(
+            e.op, ast.Or) else [e]
+        for x in parts:
+            if isinstance(x, ast.Dict) and not x.keys:
+                continue
+            r = prog.resolve(pf.module, x.func) if isinstance(
+                x, ast.Call) else None
+            if r and r.endswith(('jsonutils.loads', 'json.loads',
+                                 'yaml.safe_load', 'yaml.load')):
+                continue
+            bad = bad or (p, U(x)[:80])
+    ctx.ob('C02.EACH-VALUE', bad is None, ctx.where(pf.module, pf.node),
+           pf.qual, 'parse_file_contents result',
+           'returns the decoded mapping itself (or an empty mapping)'
+           if bad is None else
+           'parse_file_contents returns %s instead of the decoded mapping: '
+           'entries with non-rule values can be dropped before the rule '
+           'parser sees them, so the name falls back to the default rule '
+           'instead of denying' % bad[1])
     return n
 
 
